@@ -3,6 +3,7 @@ from hqrules.core import FailClosed, callee_of, callee_decl, op_local, op_place,
 from hqrules.templates import (effect_blocks, must_pass, state_writes, variants_at, call_sites, construct_sites, Effect,
                                loop_headers_containing, owner_fn, scrutinees, guard_edges, dominated_by_edges,
                                local_field_sources, binops, operand_fields, field_write_sites, field_read_sites, const_operands)
+from hqrules.templates import bool_uses, assembled_field_sources
 from .common import *
 
 EXPLANATION = ('Replay/reflection resistance as a protocol property needs a symbolic attacker model and the strength of the AEAD is trusted; neither is '
@@ -78,9 +79,11 @@ def run(ctx):
     oc = fa.call_blocks(lambda c: c.endswith('StreamOpener::open_chunk'))
     ctx.ob('R20.1', 'Encryption|open_chunk dominates', bool(oc) and sbi not in fa.reach_from([0], avoid=oc), 'the response is opened with the shared key before acceptance', fa.loc(oc[0]) if oc else fa.loc())
     cmps = [bi for bi, t, c in fa.calls() if bi in fa.reachable() and (callee_decl(t) or '').endswith(('PartialEq::ne', 'PartialEq::eq')) and bi in fa.coreach([sbi])]
-    exp_l = sorted({fa._mutref_target(op_local(fa.term[bi]['args'][0])) for bi in fa.call_blocks(lambda c: c.endswith('Vec::extend_from_slice'))} - {None})
-    ctx.require(len(exp_l) == 1, f'R20.1: the expected-response buffer (receiver of extend_from_slice) not identified: {exp_l}')
-    cmp_bytes = [bi for bi in cmps if any(op_local(a) is not None and set(exp_l) & fa.derived_from(op_local(a)) for a in fa.term[bi]['args'])]
+    # the comparison whose operands carry self.peer_role and self.challenge (whatever way the expected bytes are assembled)
+    def _srcs(b_, a_):
+        l_ = op_local(a_)
+        return assembled_field_sources(b_, l_) if l_ is not None else set()
+    cmp_bytes = [bi for bi in cmps if {'peer_role', 'challenge'} <= set().union(*[_srcs(fa, a) for a in fa.term[bi]['args']])]
     cmp_tag = [bi for bi in cmps if any('StreamTag' in fa.locals[op_local(a)][0] for a in fa.term[bi]['args'] if op_local(a) is not None)]
     ctx.ob('R20.1', 'Encryption|bytes compared', bool(cmp_bytes), 'the opened bytes are compared with the expected response', fa.loc(cmp_bytes[0]) if cmp_bytes else fa.loc())
     ctx.ob('R20.1', 'Encryption|tag compared', bool(cmp_tag), 'the stream tag is compared with Message', fa.loc(cmp_tag[0]) if cmp_tag else fa.loc())
@@ -91,13 +94,33 @@ def run(ctx):
             e, _ = guard_edges(fa, callee_decl(t), not is_ne)
             e = {x for x in e if x[0] in fa.reach_from([c])}
             ctx.ob('R20.1', f'Encryption|{name} comparison guards acceptance', bool(e) and dominated_by_edges(fa, sbi, e, False), f'acceptance requires the {name} comparison to succeed', fa.loc(c))
-    ext = [bi for bi in fa.call_blocks(lambda c: c.endswith('Vec::extend_from_slice')) if set(exp_l) & fa.derived_from(op_local(fa.term[bi]['args'][0]))]
     srcf = set()
-    for bi in ext:
-        srcf |= local_field_sources(fa, op_local(fa.term[bi]['args'][1]), through_mutation=False)
-    ctx.ob('R20.1', 'Encryption|expected = peer_role || challenge', {'peer_role', 'challenge'} <= srcf and len(ext) == 2, f'the expected response is built from self.peer_role and self.challenge (observed sources {sorted(srcf & {"peer_role", "my_role", "challenge"})})', fa.loc(ext[0]) if ext else fa.loc())
-    if len(ext) == 2:
-        first = 'peer_role' in local_field_sources(fa, op_local(fa.term[sorted(ext, key=lambda x: x not in fa.coreach([max(ext)]))[0]]['args'][1]))
+    for bi in cmp_bytes[:1]:
+        for a in fa.term[bi]['args']:
+            srcf |= _srcs(fa, a)
+    ctx.ob('R20.1', 'Encryption|expected = peer_role || challenge', {'peer_role', 'challenge'} <= srcf and 'my_role' not in srcf, f'the expected response is built from self.peer_role and self.challenge, not from my_role (observed sources {sorted(srcf & {"peer_role", "my_role", "challenge"})})', fa.loc(cmp_bytes[0]) if cmp_bytes else fa.loc())
+    # whole-value equality: the comparison is PartialEq::eq/ne on the two byte containers (a call), not an element-wise
+    # zip/all or starts_with test that accepts a prefix
+    if cmp_bytes:
+        tys = [fa.locals[op_local(a)][0] for a in fa.term[cmp_bytes[0]]['args'] if op_local(a) is not None]
+        ctx.ob('R20.1', 'Encryption|whole-value equality', all(('Vec<u8>' in t or '[u8]' in t or '[u8;' in t) for t in tys) and len(tys) == 2,
+               f'the byte comparison is a whole-value equality of two byte containers (observed operand types {tys})', fa.loc(cmp_bytes[0]))
+    # order agreement between the two sides when both assemble the bytes with two extend_from_slice calls
+    def _order(b_):
+        ex = [bi for bi in b_.call_blocks(lambda c: c.endswith('Vec::extend_from_slice'))]
+        if len(ex) != 2:
+            return None
+        a_, c_ = ex
+        if a_ in b_.reach_after(c_) and c_ not in b_.reach_after(a_):
+            a_, c_ = c_, a_
+        return ['role' if {'peer_role', 'my_role'} & local_field_sources(b_, op_local(b_.term[x]['args'][1]), through_mutation=False) else
+                'challenge' if 'challenge' in local_field_sources(b_, op_local(b_.term[x]['args'][1]), through_mutation=False) else '?' for x in (a_, c_)]
+    mr_ = prog.body(AU + '::make_auth_response')
+    o1, o2 = _order(fa), _order(mr_)
+    if o1 is not None and o2 is not None:
+        ctx.ob('R20.1', 'Encryption|role-then-challenge on both sides', o1 == o2 == ['role', 'challenge'], f'verifier and responder assemble the bytes in the same order (verifier {o1}, responder {o2})', fa.loc())
+    else:
+        ctx.note('R20.1 order agreement', f'not evaluated: assembly is not two extend_from_slice calls on both sides (verifier {o1}, responder {o2})')
     # every other path returns Err: the Ok result is constructed once, reachable only through acceptance sites
     oks = [bi for o, b, bi, s in construct_sites(prog, RESULT, 'Ok') if b.path == fa.path]
     ctx.ob('R20.1', 'Ok only through acceptance', len(oks) == 1 and oks[0] not in fa.reach_from([0], avoid=[bi for bi, s, v in acc]), 'the only Ok result is reached through one of the acceptance cells', fa.loc(oks[0]) if oks else fa.loc())
@@ -138,13 +161,21 @@ def run(ctx):
     ctx.ob('R20.2', 'refusals via _make_error', len(mkerr) >= 4, f'protocol, role, challenge-length and both mode/key mismatches call _make_error (observed {len(mkerr)} sites)', mr.loc())
     seal = mr.call_blocks(lambda c: c.endswith('StreamSealer::seal_chunk'))
     ctx.require(seal, 'R20.2: seal_chunk')
-    rl = sorted({mr._mutref_target(op_local(mr.term[bi]['args'][0])) for bi in mr.call_blocks(lambda c: c.endswith('Vec::extend_from_slice'))} - {None})
-    ctx.require(len(rl) == 1, f'R20.2: the response buffer (receiver of extend_from_slice) not identified: {rl}')
-    ext = [bi for bi in mr.call_blocks(lambda c: c.endswith('Vec::extend_from_slice')) if set(rl) & mr.derived_from(op_local(mr.term[bi]['args'][0]))]
     srcf = set()
-    for bi in ext:
-        srcf |= local_field_sources(mr, op_local(mr.term[bi]['args'][1]), through_mutation=False)
-    ctx.ob('R20.2', 'sealed bytes = my_role || peer challenge', {'my_role', 'challenge'} <= srcf and 'peer_role' not in srcf and len(ext) == 2, f'the sealed response is my_role followed by the challenge received from the peer (observed sources {sorted(srcf & {"peer_role", "my_role", "challenge"})})', mr.loc(seal[0]))
+    for a in mr.term[seal[0]]['args'][1:]:
+        l_ = op_local(a)
+        if l_ is not None:
+            srcf |= assembled_field_sources(mr, l_)
+    ctx.ob('R20.2', 'sealed bytes = my_role || peer challenge', {'my_role', 'challenge'} <= srcf and 'peer_role' not in srcf, f'the sealed response is built from my_role and the challenge received from the peer (observed sources {sorted(srcf & {"peer_role", "my_role", "challenge"})})', mr.loc(seal[0]))
+    # challenge length: exactly CHALLENGE_LENGTH (an empty or short challenge makes the sealed response replayable)
+    lens = [(bi, s, op) for bi, s, op, a, c in binops(mr) if op in ('Ne', 'Eq', 'Lt', 'Le', 'Gt', 'Ge') and
+            any(op_local(x) is not None and 'challenge' in local_field_sources(mr, op_local(x), through_mutation=False) for x in (a, c))]
+    ctx.ob('R20.2', 'challenge length|exact', len(lens) == 1 and lens[0][2] in ('Ne', 'Eq'), f'the length of the received challenge is tested for equality with CHALLENGE_LENGTH (observed {[x[2] for x in lens]})', mr.loc(lens[0][0], lens[0][1]) if lens else mr.loc())
+    if lens:
+        bi_, s_, op_ = lens[0]
+        uses_ = bool_uses(mr, s_['p'][0])
+        good_e = set((sb, fs_ if op_ == 'Ne' else ts_) for sb, ts_, fs_ in uses_)
+        ctx.ob('R20.2', 'challenge length|guards the sealed answer', bool(good_e) and dominated_by_edges(mr, seal[0], good_e, False), 'the response is sealed only when the length test succeeded', mr.loc(bi_, s_))
     ws = [bi for bi, st, pl, fs in mr.field_writes() if fs and fs[-1][0] == 'sealer']
     ctx.ob('R20.2', 'sealer kept', bool(ws), 'the sealer that produced the response is kept for the session', mr.loc())
 
